@@ -610,7 +610,12 @@ def recip_abstract(es, table=None):
         r = t
         if z3.is_app(t) and t.num_args() > 0:
             ch = [walk(c) for c in t.children()]
-            if t.decl().kind() == z3.Z3_OP_DIV:
+            if t.decl().kind() == z3.Z3_OP_DIV and _val_of(z3.simplify(ch[1])) not in (None, 0):
+                # division by a numeral is a multiplication by a constant
+                c = _val_of(z3.simplify(ch[1]))
+                c = Fraction(1) / Fraction(c)
+                r = ch[0] * z3.RealVal(f'{c.numerator}/{c.denominator}')
+            elif t.decl().kind() == z3.Z3_OP_DIV:
                 b = z3.simplify(ch[1], som=True, som_blowup=1000000)
                 key = b.get_id()
                 if key not in table:
@@ -802,6 +807,7 @@ class Engine:
         self.sqrt_log: list = []
         self.abs_log: list = []
         self.tagger = None
+        self.path_samples: list = []
         self.stats = Stats()
         self.failures: list[Failure] = []
         self.inconclusives: list[str] = []
@@ -1175,7 +1181,7 @@ class Engine:
         za, zb = _toreal(_z(a)), _toreal(_z(b))
         (n1, d1), (n2, d2) = clear_denominators(za), clear_denominators(zb)
         cleared = (n1 * d2 == n2 * d1)
-        return self._oblige(name, za == zb, info=info, alt=cleared)
+        return self._oblige(name, za == zb, info=info, alt=cleared, diffs=[za - zb])
 
     def oblige_all_eq(self, name: str, pairs, info: dict | None = None):
         """Conjunction of identities, decided as one query."""
@@ -1186,7 +1192,7 @@ class Engine:
                 name, all(self.ceq(a, b) for a, b in pairs), info)
         self.path_obligations += 1
         self.flush_divisions()
-        nat, clr = [], []
+        nat, clr, diffs = [], [], []
         for a, b in pairs:
             if _is_num(a) and _is_num(b):
                 if lift(a) != lift(b):
@@ -1199,13 +1205,14 @@ class Engine:
             (n1, d1), (n2, d2) = clear_denominators(za), clear_denominators(zb)
             nat.append(za == zb)
             clr.append(n1 * d2 == n2 * d1)
+            diffs.append(za - zb)
         if not nat:
             self.stats.obligations += 1
             self.stats.discharged += 1
             self.stats.obligation_names[name] = \
                 self.stats.obligation_names.get(name, 0) + 1
             return True
-        return self._oblige(name, z3.And(nat), info=info, alt=z3.And(clr))
+        return self._oblige(name, z3.And(nat), info=info, alt=z3.And(clr), diffs=diffs)
 
     def ceq(self, a, b, scale: float = 1.0) -> bool:
         """Concrete equality; with a tolerance when replaying on floats."""
@@ -1231,7 +1238,7 @@ class Engine:
             print(f'[q one-shot {time.time() - t:.2f}s {r}] n={len(assertions)}', flush=True)
         return str(r), (s.model() if r == z3.sat else None)
 
-    def _oblige(self, name, cond, kind='prop', info=None, alt=None):
+    def _oblige(self, name, cond, kind='prop', info=None, alt=None, diffs=None):
         self.stats.obligations += 1
         self.stats.obligation_names[name] = \
             self.stats.obligation_names.get(name, 0) + 1
@@ -1255,6 +1262,25 @@ class Engine:
             r, m = self._one_shot([z3.Not(rc)], min(tmo, 10000))
             if r == 'unsat':
                 verdict = 'unsat'
+            elif r != 'sat':
+                # large polynomials: the solver's default normal form gives up
+                # (som_blowup); hand it the explicitly expanded form
+                try:
+                    if diffs:
+                        ds, _ = recip_abstract(list(diffs))
+                        ds = [z3.simplify(d, som=True, som_blowup=1000000) for d in ds]
+                        rs = z3.Or([d != 0 for d in ds])
+                        if _DEBUG:
+                            print('[som rung]', len(ds), [str(d)[:40] for d in ds[:3]], flush=True)
+                        r2, _ = self._one_shot([rs], min(tmo, 10000))
+                        if r2 == 'unsat':
+                            verdict = 'unsat'
+                            r = 'unsat'
+                except z3.Z3Exception as ex:
+                    if _DEBUG:
+                        print('[som rung failed]', ex, flush=True)
+            if verdict == 'unsat':
+                pass
             elif r == 'sat':
                 # not an identity over free reciprocals: quite likely not an
                 # identity at all -- look for a real counter-model right away
@@ -1432,6 +1458,11 @@ class Engine:
                     self.flush_divisions()
                     if self.trace or self.path_obligations:
                         self.stats.paths_nontrivial += 1
+                    if len(self.path_samples) < 2:
+                        self.path_samples.append({
+                            'decisions': [d if isinstance(d, bool) else list(d) for d in self.trace][:40],
+                            'path_condition': [_short(c, 120) for c in self.pc[:8]],
+                            'obligations_on_path': self.path_obligations})
                     if on_path_end is not None:
                         on_path_end(self)
                 except PathAbort:
